@@ -256,6 +256,26 @@ var families = []family{
 		}
 		return msg6(tlv(6, v))
 	}},
+	// class data whose items declare more octets than there are (65535, 4096, one too many), followed by more "items":
+	// rejected -- at a cost proportional to what is there, not to what is declared
+	{"class-item-overrun", "v6", false, func(n int) []byte {
+		v := []byte{}
+		for i := 0; len(v)+2 <= n-8; i++ {
+			l := []int{0xffff, 0x1000, n, 0x8000}[i%4]
+			v = append(v, byte(l>>8), byte(l))
+		}
+		return msg6(tlv(15, v))
+	}},
+	{"vendorclass-item-overrun", "v6", false, func(n int) []byte {
+		v := []byte{0, 0, 0, 9, 0, 1, 'x'}
+		for i := 0; len(v)+2 <= n-8; i++ {
+			l := []int{0xffff, 0x1000, 0x7fff}[i%3]
+			v = append(v, byte(l>>8), byte(l))
+		}
+		h := make([]byte, 34)
+		h[0] = 12
+		return append(h, tlv(9, msg6(tlv(16, v)))...)
+	}},
 	{"userclass-items", "v6", false, func(n int) []byte {
 		v := []byte{}
 		for len(v)+2 <= n-8 {
